@@ -1308,6 +1308,13 @@ class Executor(object):
             return S.floordiv(a, b)
         if isinstance(op, ast.Mod):
             if isinstance(a, str):
+                try:
+                    vals = b if isinstance(b, tuple) else (b,)
+                    if all(isinstance(x, (str, int, bool, type(None)))
+                           for x in vals):
+                        return a % b
+                except Exception:
+                    pass
                 return '<formatted>'
             self.nonzero(b, st, node)
             return S.mod(a, b)
